@@ -87,38 +87,154 @@ Proof.
   destruct (CharPartition_class_of_char_binary_search_loop1 _ l x 0 (length l)) as [[c|[a b]]|]; reflexivity.
 Qed.
 
+(* ---- canonical forms.  For every translated function without a loop: M_f args = <a fixed expression
+   over the generated data>, proved by a generic tactic (unfold f, rewrite the canonical forms of its
+   callees, case analysis innermost first, arithmetic at the leaves).  A behaviour-preserving rewrite of
+   the Rust function changes the shape of f but not its canonical form; the links to the model below are
+   derived from the canonical forms only. ---- *)
+Ltac gcase :=
+  match goal with
+  | |- context [match ?x with _ => _ end] =>
+      lazymatch x with
+      | context [match _ with _ => _ end] => fail
+      | _ => first [ is_var x; destruct x | destruct x eqn:? ]
+      end
+  end.
+Ltac gnorm := cbv [bind option_map negb andb orb]; cbn [fst snd].
+Ltac gfin := first [ reflexivity | congruence | (exfalso; lia) | solve [repeat (f_equal; try lia)] ].
+Ltac gauto := gnorm; repeat (gcase; gnorm); gfin.
+
+Definition unconvc (c : classid) : ClassId :=
+  match c with CInt i => ClassId_Interval i | CComp => ClassId_Complement end.
+Lemma unconvc_convc c : unconvc (convc c) = c.
+Proof. destruct c; reflexivity. Qed.
+Lemma convc_unconvc c : convc (unconvc c) = c.
+Proof. destruct c; reflexivity. Qed.
+
+Lemma canon_class_of_char fuel p x : (length (CharPartition_list p) < fuel)%nat ->
+  M_CharPartition_class_of_char fuel p x = option_map unconvc (pclass_of_char (convp p) x).
+Proof.
+  intros Hf. rewrite <- (link_class_of_char fuel p x Hf).
+  destruct (M_CharPartition_class_of_char fuel p x) as [c|]; cbn [option_map]; [rewrite unconvc_convc|]; reflexivity.
+Qed.
+Lemma canon_len p : M_CharPartition_len p = Some (length (CharPartition_list p)).
+Proof. unfold M_CharPartition_len, CharPartition_len. gauto. Qed.
+Lemma canon_empty_complement p :
+  M_CharPartition_empty_complement p = Some (MAX_CHAR <? CharPartition_comp_witness p).
+Proof. unfold M_CharPartition_empty_complement, CharPartition_empty_complement. gauto. Qed.
+Lemma canon_valid_class_id p c :
+  M_CharPartition_valid_class_id p c =
+  Some (match c with
+        | ClassId_Interval i => Nat.ltb i (length (CharPartition_list p))
+        | ClassId_Complement => negb (MAX_CHAR <? CharPartition_comp_witness p)
+        end).
+Proof.
+  unfold M_CharPartition_valid_class_id, CharPartition_valid_class_id.
+  rewrite ?canon_len, ?canon_empty_complement. gauto.
+Qed.
+
+Lemma canon_state_id s : M_State_id_fn s = Some (State_id s).
+Proof. unfold M_State_id_fn, State_id_fn. gauto. Qed.
+Lemma canon_state_is_final s : M_State_is_final_fn s = Some (State_is_final s).
+Proof. unfold M_State_is_final_fn, State_is_final_fn. gauto. Qed.
+Lemma canon_num_successors s : M_State_num_successors s = Some (length (CharPartition_list (State_classes s))).
+Proof. unfold M_State_num_successors, State_num_successors. rewrite ?canon_len. gauto. Qed.
+Lemma canon_has_default_successor s :
+  M_State_has_default_successor s = Some (match State_default_successor s with Some _ => true | None => false end).
+Proof. unfold M_State_has_default_successor, State_has_default_successor. gauto. Qed.
+Lemma canon_state_default_successor s : M_State_default_successor_fn s = Some (State_default_successor s).
+Proof. unfold M_State_default_successor_fn, State_default_successor_fn. gauto. Qed.
+Lemma canon_state_valid_class_id s c :
+  M_State_valid_class_id s c =
+  Some (match c with
+        | ClassId_Interval i => Nat.ltb i (length (CharPartition_list (State_classes s)))
+        | ClassId_Complement => negb (MAX_CHAR <? CharPartition_comp_witness (State_classes s))
+        end).
+Proof. unfold M_State_valid_class_id, State_valid_class_id. rewrite ?canon_valid_class_id. gauto. Qed.
+Lemma canon_state_class_of_char fuel s x : (length (CharPartition_list (State_classes s)) < fuel)%nat ->
+  M_State_class_of_char fuel s x = option_map unconvc (pclass_of_char (convp (State_classes s)) x).
+Proof.
+  intros Hf. unfold M_State_class_of_char, State_class_of_char. rewrite ?(canon_class_of_char fuel _ x Hf). gauto.
+Qed.
+Lemma canon_char_maps_to_default fuel s x : (length (CharPartition_list (State_classes s)) < fuel)%nat ->
+  M_State_char_maps_to_default fuel s x =
+  match State_default_successor s with
+  | Some _ => option_map (fun c => classid_eqb c CComp) (pclass_of_char (convp (State_classes s)) x)
+  | None => Some false
+  end.
+Proof.
+  intros Hf. unfold M_State_char_maps_to_default, State_char_maps_to_default.
+  rewrite ?canon_has_default_successor, ?(canon_class_of_char fuel _ x Hf).
+  gnorm. repeat (gcase; gnorm); try gfin; try (match goal with c : classid |- _ => destruct c end; gfin).
+Qed.
+
+Lemma canon_state a i : M_Automaton_state a i = nth_error (Automaton_states a) i.
+Proof. unfold M_Automaton_state, Automaton_state. gauto. Qed.
+Lemma canon_initial_state a : M_Automaton_initial_state_fn a = nth_error (Automaton_states a) (Automaton_initial_state a).
+Proof. unfold M_Automaton_initial_state_fn, Automaton_initial_state_fn. gauto. Qed.
+Lemma canon_num_states a : M_Automaton_num_states_fn a = Some (Automaton_num_states a).
+Proof. unfold M_Automaton_num_states_fn, Automaton_num_states_fn. gauto. Qed.
+Lemma canon_num_final_states a : M_Automaton_num_final_states_fn a = Some (Automaton_num_final_states a).
+Proof. unfold M_Automaton_num_final_states_fn, Automaton_num_final_states_fn. gauto. Qed.
+Lemma canon_default_successor a s :
+  M_Automaton_default_successor a s =
+  match State_default_successor s with
+  | Some i => option_map Some (nth_error (Automaton_states a) i)
+  | None => Some None
+  end.
+Proof. unfold M_Automaton_default_successor, Automaton_default_successor. gauto. Qed.
+Lemma canon_class_next a s c :
+  M_Automaton_class_next a s c =
+  match (match c with
+         | ClassId_Interval k => nth_error (State_successor s) k
+         | ClassId_Complement => State_default_successor s
+         end) with
+  | Some i => nth_error (Automaton_states a) i
+  | None => None
+  end.
+Proof. unfold M_Automaton_class_next, Automaton_class_next. gauto. Qed.
+Lemma canon_next fuel a s x : (length (CharPartition_list (State_classes s)) < fuel)%nat ->
+  M_Automaton_next fuel a s x =
+  match pclass_of_char (convp (State_classes s)) x with
+  | Some c => M_Automaton_class_next a s (unconvc c)
+  | None => None
+  end.
+Proof.
+  intros Hf. unfold M_Automaton_next, Automaton_next. rewrite ?(canon_class_of_char fuel _ x Hf). gauto.
+Qed.
+
 (* ---- State accessors ---- *)
 Lemma link_state_id s : M_State_id_fn s = Some (a_id (convst s)).
-Proof. reflexivity. Qed.
+Proof. apply canon_state_id. Qed.
 Lemma link_state_is_final s : M_State_is_final_fn s = Some (a_final (convst s)).
-Proof. reflexivity. Qed.
+Proof. apply canon_state_is_final. Qed.
 Lemma link_num_successors s : M_State_num_successors s = Some (s_num_successors (convst s)).
 Proof.
-  destruct s as [i f [l w] su d]. autounfold with rs2v. cbv [s_num_successors plen convst a_classes convp ivs State_classes CharPartition_list].
-  rewrite map_length. reflexivity.
+  rewrite canon_num_successors. cbv [s_num_successors plen convst a_classes convp ivs]. rewrite map_length. reflexivity.
 Qed.
 Lemma link_has_default_successor s : M_State_has_default_successor s = Some (s_has_default_successor (convst s)).
-Proof. reflexivity. Qed.
+Proof. apply canon_has_default_successor. Qed.
 Lemma link_state_default_successor s : M_State_default_successor_fn s = Some (s_default_successor (convst s)).
-Proof. reflexivity. Qed.
+Proof. apply canon_state_default_successor. Qed.
 Lemma link_state_valid_class_id s c : M_State_valid_class_id s c = Some (s_valid_class_id (convst s) (convc c)).
 Proof.
-  destruct s as [i f [l w] su d]. destruct c as [k|]; autounfold with rs2v;
-    cbv [s_valid_class_id pvalid plen pempty_complement convst a_classes convp ivs wit convc State_classes
-         CharPartition_list CharPartition_comp_witness bind MAXC]; rewrite ?map_length; reflexivity.
+  rewrite canon_state_valid_class_id.
+  cbv [s_valid_class_id pvalid plen pempty_complement convst a_classes convp ivs wit MAXC MAX_CHAR].
+  rewrite map_length. destruct c; reflexivity.
 Qed.
 Lemma link_state_class_of_char fuel s x : (length (CharPartition_list (State_classes s)) < fuel)%nat ->
   option_map convc (M_State_class_of_char fuel s x) = pclass_of_char (a_classes (convst s)) x.
-Proof. intros Hf. unfold M_State_class_of_char, State_class_of_char. apply link_class_of_char. exact Hf. Qed.
+Proof.
+  intros Hf. rewrite (canon_state_class_of_char fuel s x Hf). cbn [convst a_classes].
+  destruct (pclass_of_char (convp (State_classes s)) x) as [c|]; cbn [option_map]; [rewrite convc_unconvc|]; reflexivity.
+Qed.
 Lemma link_char_maps_to_default fuel s x : (length (CharPartition_list (State_classes s)) < fuel)%nat ->
   M_State_char_maps_to_default fuel s x = s_char_maps_to_default (convst s) x.
 Proof.
-  intros Hf. unfold M_State_char_maps_to_default, State_char_maps_to_default, s_char_maps_to_default.
-  rewrite link_has_default_successor. cbn [bind].
-  destruct (s_has_default_successor (convst s)); [|reflexivity].
-  change (a_classes (convst s)) with (convp (State_classes s)).
-  rewrite <- (link_class_of_char fuel _ x Hf).
-  destruct (M_CharPartition_class_of_char fuel (State_classes s) x) as [[k|]|]; reflexivity.
+  intros Hf. rewrite (canon_char_maps_to_default fuel s x Hf).
+  unfold s_char_maps_to_default, s_has_default_successor, convst. cbn [a_default a_classes].
+  destruct (State_default_successor s); [|reflexivity].
+  destruct (pclass_of_char (convp (State_classes s)) x); reflexivity.
 Qed.
 
 (* ---- Automaton accessors ---- *)
@@ -126,18 +242,21 @@ Lemma nth_error_map_convst l i : nth_error (map convst l) i = option_map convst 
 Proof. revert i; induction l as [|x l IH]; intros [|i]; cbn; auto. Qed.
 
 Lemma link_state a i : option_map convst (M_Automaton_state a i) = a_state_at (conva a) i.
-Proof. unfold a_state_at, conva. cbn [astates]. rewrite nth_error_map_convst. reflexivity. Qed.
+Proof. rewrite canon_state. unfold a_state_at, conva. cbn [astates]. rewrite nth_error_map_convst. reflexivity. Qed.
 Lemma link_initial_state a : option_map convst (M_Automaton_initial_state_fn a) = a_initial_state (conva a).
-Proof. unfold a_initial_state, a_state_at, conva. cbn [astates initial]. rewrite nth_error_map_convst. reflexivity. Qed.
+Proof.
+  rewrite canon_initial_state. unfold a_initial_state, a_state_at, conva. cbn [astates initial].
+  rewrite nth_error_map_convst. reflexivity.
+Qed.
 Lemma link_num_states a : M_Automaton_num_states_fn a = Some (a_num_states (conva a)).
-Proof. reflexivity. Qed.
+Proof. apply canon_num_states. Qed.
 Lemma link_num_final_states a : M_Automaton_num_final_states_fn a = Some (a_num_final_states (conva a)).
-Proof. reflexivity. Qed.
+Proof. apply canon_num_final_states. Qed.
 
 Lemma link_default_successor a s :
   option_map (option_map convst) (M_Automaton_default_successor a s) = a_default_successor (conva a) (convst s).
 Proof.
-  unfold M_Automaton_default_successor, Automaton_default_successor, a_default_successor, a_state_at, conva.
+  rewrite canon_default_successor. unfold a_default_successor, a_state_at, conva.
   cbn [astates convst a_default]. destruct (State_default_successor s) as [d|]; [|reflexivity].
   rewrite nth_error_map_convst. cbv [bind]. destruct (nth_error (Automaton_states a) d); reflexivity.
 Qed.
@@ -147,7 +266,7 @@ Qed.
 Lemma link_class_next a s c :
   option_map convst (M_Automaton_class_next a s c) = a_class_next (conva a) (convst s) (convc c).
 Proof.
-  unfold M_Automaton_class_next, Automaton_class_next, a_class_next, a_state_at, conva.
+  rewrite canon_class_next. unfold a_class_next, a_state_at, conva.
   cbn [astates convst a_succ a_default]. cbv [bind].
   destruct c as [k|]; cbn [convc].
   - destruct (nth_error (State_successor s) k) as [i|]; [|reflexivity]. rewrite nth_error_map_convst. reflexivity.
@@ -166,10 +285,9 @@ Qed.
 Lemma link_next fuel a s c : (length (CharPartition_list (State_classes s)) < fuel)%nat ->
   option_map convst (M_Automaton_next fuel a s c) = a_next_state (conva a) (convst s) c.
 Proof.
-  intros Hf. unfold M_Automaton_next, Automaton_next, a_next_state.
-  cbn [convst a_classes]. rewrite <- (link_class_of_char fuel _ c Hf). cbv [bind].
-  destruct (M_CharPartition_class_of_char fuel (State_classes s) c) as [cid|]; [|reflexivity].
-  cbn [option_map]. apply link_class_next.
+  intros Hf. rewrite (canon_next fuel a s c Hf). unfold a_next_state. cbn [convst a_classes]. cbv [bind].
+  destruct (pclass_of_char (convp (State_classes s)) c) as [cid|]; [|reflexivity].
+  rewrite link_class_next, convc_unconvc. reflexivity.
 Qed.
 
 (* ---- str_next / accepts: a left fold over the characters of the string ---- *)
@@ -184,15 +302,16 @@ Definition fuel_ok (fuel : nat) (a : Automaton) : Prop :=
 
 Lemma class_next_in a s c s' : M_Automaton_class_next a s c = Some s' -> In s' (Automaton_states a).
 Proof.
-  unfold M_Automaton_class_next, Automaton_class_next. cbv [bind].
-  destruct (match c with ClassId_Interval v_i => nth_error (State_successor s) v_i | ClassId_Complement => State_default_successor s end) as [i|];
+  rewrite canon_class_next.
+  destruct (match c with ClassId_Interval k => nth_error (State_successor s) k | ClassId_Complement => State_default_successor s end) as [i|];
     [|discriminate].
   apply nth_error_In.
 Qed.
-Lemma next_in fuel a s c s' : M_Automaton_next fuel a s c = Some s' -> In s' (Automaton_states a).
+Lemma next_in fuel a s c s' : (length (CharPartition_list (State_classes s)) < fuel)%nat ->
+  M_Automaton_next fuel a s c = Some s' -> In s' (Automaton_states a).
 Proof.
-  unfold M_Automaton_next, Automaton_next. cbv [bind].
-  destruct (M_CharPartition_class_of_char fuel (State_classes s) c) as [cid|]; [|discriminate].
+  intros Hf. rewrite (canon_next fuel a s c Hf).
+  destruct (pclass_of_char (convp (State_classes s)) c) as [cid|]; [|discriminate].
   apply class_next_in.
 Qed.
 
@@ -204,7 +323,7 @@ Proof.
   cbn [fold_m str_next_state]. rewrite <- (link_next fuel a s c Hs). cbv [bind].
   destruct (M_Automaton_next fuel a s c) as [s'|] eqn:E; [|reflexivity].
   cbn [option_map]. apply IH.
-  apply next_in in E. unfold fuel_ok in Hok. rewrite Forall_forall in Hok. apply Hok. exact E.
+  apply (next_in fuel a s c s' Hs) in E. unfold fuel_ok in Hok. rewrite Forall_forall in Hok. apply Hok. exact E.
 Qed.
 
 Lemma link_str_next fuel a s w : fuel_ok fuel a -> (length (CharPartition_list (State_classes s)) < fuel)%nat ->
@@ -215,32 +334,40 @@ Proof.
   destruct (fold_m _ (SmtString_s w) s); reflexivity.
 Qed.
 
+Lemma canon_accepts fuel a w :
+  M_Automaton_accepts fuel a w =
+  match nth_error (Automaton_states a) (Automaton_initial_state a) with
+  | Some s0 => option_map State_is_final (M_Automaton_str_next fuel a s0 w)
+  | None => None
+  end.
+Proof. unfold M_Automaton_accepts, Automaton_accepts. rewrite ?canon_initial_state. gauto. Qed.
+
 Lemma link_accepts fuel a w : fuel_ok fuel a ->
   M_Automaton_accepts fuel a w =
   do s0 <- a_initial_state (conva a); option_map a_final (str_next_state (conva a) s0 (SmtString_s w)).
 Proof.
-  intros Hok. unfold M_Automaton_accepts, Automaton_accepts. rewrite <- link_initial_state.
-  destruct (M_Automaton_initial_state_fn a) as [s0|] eqn:E0; [|reflexivity]. cbn [bind option_map].
+  intros Hok. rewrite canon_accepts. rewrite <- link_initial_state, canon_initial_state.
+  destruct (nth_error (Automaton_states a) (Automaton_initial_state a)) as [s0|] eqn:E0; [|reflexivity].
+  cbn [bind option_map].
   assert (Hs0 : (length (CharPartition_list (State_classes s0)) < fuel)%nat).
-  { unfold M_Automaton_initial_state_fn, Automaton_initial_state_fn in E0. apply nth_error_In in E0.
-    unfold fuel_ok in Hok. rewrite Forall_forall in Hok. apply Hok. exact E0. }
+  { apply nth_error_In in E0. unfold fuel_ok in Hok. rewrite Forall_forall in Hok. apply Hok. exact E0. }
   rewrite <- (link_str_next fuel a s0 w Hok Hs0).
   destruct (M_Automaton_str_next fuel a s0 w); reflexivity.
 Qed.
 
 (* ---- iterators are created at position 0 over the state array ---- *)
 Lemma link_edges a s : M_Automaton_edges a s = Some (EdgeIterator_mk (Automaton_states a) s 0).
-Proof. reflexivity. Qed.
+Proof. unfold M_Automaton_edges, Automaton_edges. gauto. Qed.
 Lemma link_final_states a : M_Automaton_final_states a = Some (FinalStateIterator_mk (Automaton_states a) 0).
-Proof. reflexivity. Qed.
+Proof. unfold M_Automaton_final_states, Automaton_final_states. gauto. Qed.
 
 (* ---- StateMapping ---- *)
 Lemma link_num_new_states m : M_StateMapping_num_new_states m = Some (length (StateMapping_old_id m)).
-Proof. reflexivity. Qed.
+Proof. unfold M_StateMapping_num_new_states, StateMapping_num_new_states. gauto. Qed.
 Lemma link_is_class_rep m i :
   M_StateMapping_is_class_rep m i =
   do n <- nth_error (StateMapping_new_id m) i; do o <- nth_error (StateMapping_old_id m) n; Some (Nat.eqb o i).
-Proof. reflexivity. Qed.
+Proof. unfold M_StateMapping_is_class_rep, StateMapping_is_class_rep. gauto. Qed.
 
 Lemma list_upd_upd {A} (l : list A) : forall i x, (i < length l)%nat -> list_upd l i x = Some (upd l i x).
 Proof.
@@ -307,18 +434,15 @@ Lemma next_edge arr s k :
   if Nat.ltb k n then
     do nid <- nth_error (State_successor s) k; do t <- nth_error arr nid;
     Some (EdgeIterator_mk arr s (k + 1), Some (ClassId_Interval k, t))
-  else if Nat.eqb k n && s_has_default_successor (convst s) then
+  else if Nat.eqb k n && match State_default_successor s with Some _ => true | None => false end then
     do d <- State_default_successor s; do t <- nth_error arr d;
     Some (EdgeIterator_mk arr s (k + 1), Some (ClassId_Complement, t))
   else Some (EdgeIterator_mk arr s k, None).
 Proof.
   unfold M_EdgeIterator_next, EdgeIterator_next.
   cbn [EdgeIterator_index EdgeIterator_state EdgeIterator_state_array].
-  rewrite !link_num_successors. cbn [bind]. rewrite link_has_default_successor.
-  unfold s_num_successors, plen, convst. cbn [a_classes convp ivs]. rewrite map_length. cbv zeta.
-  destruct (Nat.ltb k (length (CharPartition_list (State_classes s)))); [reflexivity|].
-  destruct (Nat.eqb k (length (CharPartition_list (State_classes s)))); cbn [andb bind]; [|reflexivity].
-  destruct (s_has_default_successor _); reflexivity.
+  rewrite ?canon_num_successors, ?canon_has_default_successor. cbv zeta.
+  gnorm. repeat (gcase; gnorm; cbn [EdgeIterator_index EdgeIterator_state EdgeIterator_state_array]); gfin.
 Qed.
 
 Definition edge_target (arr : list State) (ci : ClassId * nat) : option (ClassId * State) :=
@@ -336,7 +460,7 @@ Proof.
   - rewrite app_nil_r in Hs. destruct fuel as [|[|fuel]]; cbn [length] in Hf; try lia.
     cbn [drain_edges]. rewrite next_edge. cbv zeta. rewrite <- Hlen, Hs.
     rewrite Nat.ltb_irrefl, Nat.eqb_refl. cbn [andb length seq map app].
-    unfold default_list, s_has_default_successor, convst. cbn [a_default].
+    unfold default_list.
     destruct (State_default_successor s) as [d|]; [|reflexivity].
     cbn [bind combine map_m]. unfold edge_target. cbn [fst snd].
     destruct (nth_error arr d) as [t|]; [|reflexivity]. cbn [bind].
@@ -388,6 +512,9 @@ Fixpoint first_final (l : list State) : option (nat * State) :=
   end.
 
 (* one call of next(): skip the non-final states from the current position on *)
+Lemma nth_error_mid {A} (pre : list A) x rest : nth_error (pre ++ x :: rest) (length pre) = Some x.
+Proof. rewrite nth_error_app2 by lia. rewrite Nat.sub_diag. reflexivity. Qed.
+
 Lemma final_loop : forall rest pre fuel i0, (length rest < fuel)%nat ->
   FinalStateIterator_next_loop1 fuel (pre ++ rest) (FinalStateIterator_mk (pre ++ rest) i0) (length pre) =
   Some (match first_final rest with
@@ -395,19 +522,23 @@ Lemma final_loop : forall rest pre fuel i0, (length rest < fuel)%nat ->
         | None => LoopDone (FinalStateIterator_mk (pre ++ rest) i0, length (pre ++ rest))
         end).
 Proof.
-  induction rest as [|x rest IH]; intros pre fuel i0 Hf.
-  - destruct fuel as [|fuel]; [cbn in Hf; lia|]. cbn [FinalStateIterator_next_loop1 first_final].
-    rewrite app_nil_r. rewrite Nat.ltb_irrefl. reflexivity.
-  - destruct fuel as [|fuel]; [cbn in Hf; lia|]. cbn [FinalStateIterator_next_loop1 first_final].
-    rewrite app_length. cbn [length].
-    replace (Nat.ltb (length pre) (length pre + S (length rest))) with true by (symmetry; apply Nat.ltb_lt; lia).
-    rewrite nth_error_app2 by lia. rewrite Nat.sub_diag. cbn [nth_error bind].
-    destruct (State_is_final x) eqn:Ex.
-    + cbn [FinalStateIterator_state_array]. do 4 f_equal. lia.
-    + specialize (IH (pre ++ [x]) fuel i0). rewrite app_length in IH. cbn [length] in IH.
-      rewrite <- app_assoc in IH. cbn [app] in IH. rewrite IH by (cbn [length] in Hf; lia).
-      destruct (first_final rest) as [[k t]|]; [do 4 f_equal; lia|].
-      rewrite app_length. reflexivity.
+  induction rest as [|x rest IH]; intros pre fuel i0 Hf; (destruct fuel as [|fuel]; [cbn in Hf; lia|]).
+  - cbn [FinalStateIterator_next_loop1 first_final]. rewrite ?app_nil_r.
+    gnorm. repeat (gcase; gnorm); gfin.
+  - assert (IH' : forall i1, FinalStateIterator_next_loop1 fuel (pre ++ x :: rest) (FinalStateIterator_mk (pre ++ x :: rest) i1) (length pre + 1) =
+                  Some (match first_final rest with
+                        | Some (k, t) => LoopReturn (FinalStateIterator_mk (pre ++ x :: rest) (length pre + 1 + k + 1), Some t)
+                        | None => LoopDone (FinalStateIterator_mk (pre ++ x :: rest) i1, length (pre ++ x :: rest))
+                        end)).
+    { intros i1. specialize (IH (pre ++ [x]) fuel i1). rewrite app_length in IH. cbn [length] in IH.
+      rewrite <- app_assoc in IH. cbn [app] in IH. apply IH. cbn [length] in Hf. lia. }
+    cbn [FinalStateIterator_next_loop1 first_final].
+    assert (Hlen : length (pre ++ x :: rest) = (length pre + S (length rest))%nat) by (rewrite app_length; reflexivity).
+    rewrite ?nth_error_mid. rewrite ?Hlen.
+    replace (S (length pre)) with (length pre + 1)%nat in * by lia.
+    gnorm. cbn [FinalStateIterator_state_array FinalStateIterator_index].
+    repeat (first [ rewrite IH' | gcase ]; gnorm; cbn [FinalStateIterator_state_array FinalStateIterator_index]);
+      rewrite <- ?Hlen; try gfin.
 Qed.
 
 Lemma next_final arr pre rest : arr = pre ++ rest ->
